@@ -71,7 +71,7 @@ inductive Pending
   | startHook                       -- `start`: after `Tcp/UdpStartHook`
   | connect                         -- `start`: `err = yield OpenConnection(server)`
   | errorHook                       -- `start`: after `Tcp/UdpErrorHook`; then CloseConnection(client), done
-  | msgHook (to : Side) (m : Msg)   -- `relay_messages`: after the message hook; then `SendData(to, m.content)`
+  | msgHook (to : Side) (m : Msg)   -- `relay_messages`: after the message hook; then `SendData(to, flow.messages[index].content)`
   | endHook                         -- `relay_messages`: after the end hook; then `flow.live = False`
 deriving DecidableEq, Repr
 
